@@ -110,7 +110,8 @@ P("C02", module="AJ.Props.C02All", extra=[("AJ.Props.C02", ["C02"]), ("AJ.Props.
   "destination kinds, measureJson and guard bytes are checked inside the harness.",
   level_note="known finding: raw control characters 0x01-0x1F other than \\b \\t \\n \\f \\r are copied unescaped (known_findings.json); theorem control_characters_not_json states it on the model",
   suites=lambda tier: [S.JsonSerSuite(cfg=DEF), S.SerBufSweep(cfg=DEF, fmt="json")] +
-  ([S.JsonSerSuite(cfg=CFG_ALL, n=20000), S.JsonSerSuite(cfg={"arduino": 1}, n=20000)] if tier == "thorough" else [S.JsonSerSuite(cfg=CFG_ALL, n=600), S.JsonSerSuite(cfg={"arduino": 1}, n=400)]),
+  ([S.JsonSerSuite(cfg=CFG_ALL, n=20000), S.JsonSerSuite(cfg={"arduino": 1}, n=20000)] if tier == "thorough" else [S.JsonSerSuite(cfg=CFG_ALL, n=600), S.JsonSerSuite(cfg={"arduino": 1}, n=400),
+                                                                                                                       S.JsonSerSuite(cfg={"ENABLE_INFINITY": 1}, n=300), S.JsonSerSuite(cfg={"ENABLE_NAN": 1}, n=300)]),
   partial=["NaN/Infinity texts under the non-standard options are outside the grammar by design"])
 
 P("C03", module="AJ.Props.C03All", extra=[("AJ.Props.C03", ["C03"]), ("AJ.Props.C03Doc", ["C03"]), ("AJ.Props.C03MpDoc", ["C03"])], level_text="C03.deserialized_document_wf(_any_oracle) / _traversable / _clearable / _reusable: for EVERY byte string, limit, configuration, starting document and allocator-failure schedule, the slot-level models of deserializeJson AND deserializeMsgPack (mp_* twins) leave a well-formed document (chains acyclic, slots used once and live, reference counts sufficient) that can be traversed, cleared and deserialized into again by either format, whatever code is returned. Theorems for every configuration, limit, filter and byte string, JSON (filtered and unfiltered) and MessagePack: the deserializer never takes more bytes "
@@ -182,7 +183,7 @@ P("C11", module="AJ.Props.C11All", extra=[("AJ.Props.C11", ["C11"]), ("AJ.Props.
   "is never produced into an absent destination. Pairs (input, filter) are "
   "run through the real library, compared with the model and with the projection of the unfiltered result computed independently; memory requested by both runs is compared.",
   level_note="the memory clause is checked on the implementation only (three measures from the allocator ledger); two known findings about it",
-  suites=lambda tier: [S.FilterSuite(cfg=DEF), S.FilterSuite(cfg=CFG_ALL, n=2500 if tier == "quick" else 100000)],
+  suites=lambda tier: [S.FilterSuite(cfg=DEF), S.FilterSuite(cfg=CFG_ALL, n=2500 if tier == "quick" else 100000), S.FilterSuite(cfg={"USE_DOUBLE": 0}, n=2000 if tier == "quick" else 80000)],
   partial=["memory clause"])
 
 P("C12", module="AJ.Props.C12All", extra=[("AJ.Props.C12", ["C12"]), ("AJ.Props.C12Print", ["C12"])],
@@ -207,7 +208,7 @@ P("C13", module="AJ.Props.C13All", extra=[("AJ.Props.C13", ["C13"]), ("AJ.Props.
   "and numeric strings, and on copyArray with every destination type, destination lengths around the array length, fixed-size, two-dimensional and string forms, in exactly-sized heap "
   "blocks with guard patterns, under ASan+UBSan.",
   level_note="writes outside the destination on the binary are observed by ASan and the guard pattern; the model has destinations of fixed length by construction",
-  suites=lambda tier: [S.ConvSuite(cfg=DEF), S.CopyArrSuite(cfg=DEF)])
+  suites=lambda tier: [S.ConvSuite(cfg=DEF), S.CopyArrSuite(cfg=DEF), S.MpDeSuite(cfg={"USE_LONG_LONG": 0}, n=500 if tier == "quick" else 30000)])
 
 P("C15", module="AJ.Props.C15All", extra=[("AJ.Props.C15", ["C15"]), ("AJ.Props.C01Doc", ["C15"]), ("AJ.Props.C09Doc", ["C15"])], level_text="Theorems for JSON (filtered and unfiltered) and MessagePack, any bytes, any limit: Ok implies nesting <= L; L+1 opening brackets/headers give TooDeep after exactly "
   "L+1 bytes, also inside discarded parts; raising the limit changes nothing unless the result was TooDeep (never otherwise). Stack use is compared between inputs of depth L+1 and 2000.",
@@ -223,8 +224,8 @@ P("C16", module="AJ.Props.C16All", extra=[("AJ.Props.C01", ["C16"]), ("AJ.Props.
   "result of a call (any code) does not depend on bytes beyond those it consumed. Documents written back to back with arbitrary separators are read through a counting reader, std::istream, "
   "a block-buffered std::istream and chunked delivery, and compared with the model and with the expected sequence.",
   level_note="reader chunking is a property of the real readers (byte-wise, block-wise, std::istream with a refilling buffer), checked by the correspondence; the model reads through a one-byte latch",
-  suites=lambda tier: [S.StreamSuite(cfg=DEF)],
-  partial=["JSON exact consumption theorem"])
+  suites=lambda tier: [S.StreamSuite(cfg=DEF), S.StreamSuite(cfg=CFG_ALL, n=800 if tier == "quick" else 60000), S.FilterSuite(cfg={"USE_DOUBLE": 0}, n=1500 if tier == "quick" else 60000)],
+  partial=["reader chunking is a property of the real readers (correspondence)"])
 
 P("C17", level_text="Theorems (for every code point / byte / byte string): Utf8::encodeCodepoint is UTF-8, decodeHex is right on every hex digit in both cases, surrogate recombination, "
   "\\uXXXX and surrogate pairs decode to UTF-8 at any position of a string (and key), whatever serializeJson writes for a byte string deserializeJson reads back identically, "
